@@ -95,6 +95,11 @@ CHECKS["C20"] = dict(
     note="PARTIAL: program equality per run (kernel-computed), REST table is data. Trusted: the tokenizing translator.",
     design="6/C20", technique="Coq proof (restriction theorems) + per-run kernel-checked template instantiation (translator) + typed/untyped side-by-side correspondence + loopback REST check")
 
+CHECKS["C09"] = dict(
+    text="Join = source monitor + for-filter clone of the destination + selection filter. Proved: join_update_in_step (after the callback following the last source change the join's cache is the selection filter applied to the destination's cache, both when the Refilter finds the filter changed and when it finds it equal: C17), composed with C19's specifications into workload/service_pods_join_exact (exactly the destination objects owned by a current source object), double_join_exact, join_ready_after_both (C08), events well-formed (C02), close stops its own subtree only (C11). Correspondence: all eight generated joins and IngressPods over two/three fake API servers in virtual time, racing source/destination histories, three create/use/close cycles over long-lived bases: join cache vs the ownership predicate and vs the extracted join_view, readiness with a slow source, goroutine inventory per cycle, bases still current.",
+    note="Known finding D5 (RCPods has no namespace scoping) is listed. The racing case inherits C06's partial label.",
+    design="6/C09", technique="Coq proof (composition of the C06/C08/C17/C19 theorems) + join scenarios over several fake servers in virtual time")
+
 PENDING = {}
 
 def main():
